@@ -3,7 +3,7 @@
 Runs real threads over the unmodified transport module; `sys.settrace` line events restricted to the files
 under test are the preemption points.  Every worker parks at each such line and proceeds only when the
 controller grants it one step.  A worker parked on a `with <lock>:` line whose lock is currently held is not
-enabled (it would block), so no timing heuristics are needed; a 2 s watchdog turns an unexpected stall into a
+enabled (it would block), so no timing heuristics are needed; a watchdog (20 s) turns an unexpected stall into a
 HarnessStall (never into a verdict).
 
 The controller's `choose` callback decides, at every step, which enabled thread runs next; in symbolic runs
@@ -16,6 +16,9 @@ import linecache
 import sys
 import threading
 from typing import Any, Callable, Dict, List, Optional, Sequence
+
+
+WATCHDOG_S = 20  # generous: the machine may be heavily loaded; a stall is never a verdict (the engine reports the path as unexplored)
 
 
 class HarnessStall(RuntimeError):
@@ -140,9 +143,9 @@ class LineScheduler:
 
     def _wait_settled(self, w: _Worker) -> None:
         with self.arrived:
-            ok = self.arrived.wait_for(lambda: w.state in ("parked", "done"), timeout=2.0)
+            ok = self.arrived.wait_for(lambda: w.state in ("parked", "done"), timeout=WATCHDOG_S)
         if not ok:
-            raise HarnessStall("thread %d did not reach a preemption point within 2 s (state %s)" % (w.tid, w.state))
+            raise HarnessStall("thread %d did not reach a preemption point within %d s (state %s)" % (w.tid, WATCHDOG_S, w.state))
 
     def _would_block(self, w: _Worker) -> bool:
         """Parked on a `with <expr>:` line whose lock is held by someone else?"""
